@@ -434,22 +434,6 @@ def oracle(c, got):
     return None
 
 
-def known(c):
-    """C14-F1: an out-of-range int with more than 4300 decimal digits reaches `'... %r' % addr` in the constructor"""
-    a = c.args
-    if a[0] == 'ctor':
-        return 'C14-F1' if abs(_int(a[1])) >= STR_LIMIT else None
-    if a[0] == 'arith':
-        _, ver, v, op, x = a
-        if op in BITS + SHIFTS and _refused(op, x) is None:
-            n = _operand_int(x)
-            if op in SHIFTS and n > 20000:
-                return None
-            exp, _ = _exact(v, op, n)
-            return 'C14-F1' if abs(exp) >= STR_LIMIT else None
-    return None
-
-
 def repro(c):
     a = c.args
     if a[0] == 'arith':
